@@ -368,6 +368,31 @@ Theorem C01_cache_T5_remove_others : forall c k k', k' <> k ->
 Proof. exact lru_remove_others. Qed.
 Print Assumptions C01_cache_T5_remove_others.
 
+(** ** T7 read-through use ([TableCache::find_table], [Table::get_block_reader]): the cache is invisible *)
+From RainVerif.proofs Require Import ReadThrough.
+
+(** any immutable file contents [store], any capacity (0 included), any sequence of reads and
+    evictions: every read answers exactly what the file holds *)
+Theorem C01_cache_T7_read_through_transparent : forall (store : N -> N) cap ops,
+  rt_run store (lru_new cap) ops = map (rt_spec store) ops.
+Proof. exact rt_run_transparent. Qed.
+Print Assumptions C01_cache_T7_read_through_transparent.
+
+Theorem C01_cache_T7_read_through_from_coherent : forall (store : N -> N) ops c,
+  coherent store (lru_entries c) -> rt_run store c ops = map (rt_spec store) ops.
+Proof. exact rt_run_transparent_from. Qed.
+Print Assumptions C01_cache_T7_read_through_from_coherent.
+
+Theorem C01_cache_T7_read_through_inv : forall (store : N -> N) cap ops,
+  lru_inv cap (rt_exec store (lru_new cap) ops).
+Proof. exact rt_exec_inv. Qed.
+Print Assumptions C01_cache_T7_read_through_inv.
+
+(** coherence of the starting state is needed: a wrong cached value is served *)
+Example C01_cache_T7_incoherent_served :
+  rt_run (fun _ => 7) (mkLru 2 [(1, 9)]) [RRead 1] = [Some 9].
+Proof. exact rt_incoherent_served. Qed.
+
 (** ** T6 examples *)
 (** capacity 2: insert 1, insert 2, get 1, insert 3 evicts 2 (not 1) *)
 Example C01_cache_T6_evicts_lru_state :
